@@ -148,6 +148,8 @@ def apply_op(target, op, mk):
         return observe(target.append, mk(op[1]))
     if k == "extend":
         return observe(target.extend, [mk(op[1]), mk(op[2])])
+    if k == "extend_gen":          # a one-shot iterable as the argument
+        return observe(target.extend, (x for x in [mk(op[1]), mk(op[2])]))
     if k == "pop":
         return observe(target.pop)
     if k == "popi":
@@ -241,6 +243,8 @@ class LineFileSpec(Spec):
                 ops.append(("insert", i, s))
         for a, b in self.extend_pairs:
             ops.append(("extend", a, b))
+        for a, b in self.extend_pairs[:2]:
+            ops.append(("extend_gen", a, b))
         return ops
 
     def step(self, impl, model, op):
@@ -403,6 +407,7 @@ class LineFileSpec(Spec):
                     "insert": lambda: "f.insert(%d, %s)" % (op[1], c.lit(op[2])),
                     "append": lambda: "f.append(%s)" % c.lit(op[1]),
                     "extend": lambda: "f.extend([%s, %s])" % (c.lit(op[1]), c.lit(op[2])),
+                    "extend_gen": lambda: "f.extend(x for x in [%s, %s])" % (c.lit(op[1]), c.lit(op[2])),
                     "pop": lambda: "f.pop()",
                     "popi": lambda: "f.pop(%d)" % op[1],
                     "remove": lambda: "f.remove(%s)" % c.lit(op[1]),
